@@ -197,4 +197,13 @@ def run(ctx):
     ctx.rule("C04-IO", "samples read back from a file carry the same reference epoch (FITS epoch written as TCB MJD and read back as such; metadata restored) - shared with C12-PATHS.")
     from .C12 import check_paths
     check_paths(_Relabel(ctx, {"C12-PATHS": "C04-IO"}))
+    from .C15 import check_tref as c15_tref
+    ctx.rule("C04-EPOCH", "the epoch the kernel uses (data._t_ref_bmjd) is the TCB MJD of the t_ref the samples carry; the data object arrives unchanged in worker processes "
+                          "(shared with C15-TREF and C05-PICKLE).")
+    c15_tref(_Relabel(ctx, {"C15-TREF": "C04-EPOCH"}))
+    from .C05 import check_pickle
+    check_pickle(_Relabel(ctx, {"C05-PICKLE": "C04-EPOCH"}))
+    from .C17 import check_pack
+    ctx.rule("C04-UNPACK", "unpack labels column i of the kernel's output with the i-th key of the units mapping the kernel's layout was built from (shared with C17-PACK).")
+    check_pack(_Relabel(ctx, {"C17-PACK": "C04-UNPACK"}))
     ctx.assume("twobody's KeplerOrbit(P, e, omega, M0, a, t0) + PolynomialRVTrend(coeffs, t0) evaluates K (cos(omega + f) + e cos omega) + sum v_i (t - t0)^i, the kernel's model (library summary)")
